@@ -8,6 +8,7 @@ import (
 	"fmt"
 	"os"
 	"runtime/debug"
+	"strconv"
 	"testing"
 	"time"
 
@@ -109,6 +110,7 @@ func c12Minimal(sp *c12Space, found *c12Case, clause string) (c12Case, c12Result
 type c12Agg struct {
 	sh       *evidence.Shard
 	reported map[string]bool
+	walkNodes int64
 }
 
 func (a *c12Agg) observe(p *evidence.Part, c *c12Case, r *c12Result) {
@@ -124,6 +126,7 @@ func (a *c12Agg) observe(p *evidence.Part, c *c12Case, r *c12Result) {
 	p.Count("pto_probes", s.ptos)
 	p.Count("datagram_size_raises", s.mtuRaises)
 	p.Count("tail_drops", s.tailDrops)
+	p.Count("ack_only_packets", s.ackOnly)
 	p.Count("events_with_window_at_four_datagrams", s.atFloor)
 	p.Count("events_with_window_within_one_datagram_of_max", s.atCeil)
 	if r.drawUsed {
@@ -328,6 +331,18 @@ func c12RaiseStates(a *c12Agg, item *int64) {
 }
 
 func c12Spaces(thorough bool) []*c12Space {
+	sps := c12SpacesOf(thorough)
+	// development aid: override depth / all-draws depth of the main space
+	if v, err := strconv.Atoi(os.Getenv("VERIF_C12_DEPTH")); err == nil && v >= 0 {
+		sps[0].depth = v
+	}
+	if v, err := strconv.Atoi(os.Getenv("VERIF_C12_DRAWS_TO")); err == nil && v >= 0 {
+		sps[0].drawsTo = v
+	}
+	return sps
+}
+
+func c12SpacesOf(thorough bool) []*c12Space {
 	all := []int{0, 1, 2, 3}
 	if thorough {
 		return []*c12Space{
@@ -338,7 +353,7 @@ func c12Spaces(thorough bool) []*c12Space {
 		}
 	}
 	return []*c12Space{
-		{part: "macro-sequences", paths: all, maxPkts: c12RealMaxPkts, depth: 4, drawsTo: 3, rootLen: 2},
+		{part: "macro-sequences", paths: all, maxPkts: c12RealMaxPkts, depth: 5, drawsTo: 3, rootLen: 2},
 		{part: "small-max-window", paths: []int{1, 2}, maxPkts: 100, depth: 3, drawsTo: 2, rootLen: 1},
 		{part: "tiny-bdp", paths: []int{-2}, maxPkts: c12RealMaxPkts, depth: 3, drawsTo: 2, rootLen: 1},
 		{part: "long-fat-real-max-window", paths: []int{-1}, maxPkts: c12RealMaxPkts, prefix: []int{c12EvClean12}, depth: 1, drawsTo: 0, rootLen: 0},
@@ -350,7 +365,7 @@ func c12Enumerate(sh *evidence.Shard) {
 		sh.InfraError("%s is set (%q): the sender would print", debugEnv, v)
 		return
 	}
-	debug.SetGCPercent(1000) // every trace allocates a fresh sender (ring buffers): keep GC and scavenger quiet
+	debug.SetGCPercent(1000) // the live heap is tiny while the sender's ring buffers are reallocated all the time
 	a := &c12Agg{sh: sh, reported: map[string]bool{}}
 	var item int64
 	if infra := c12Owned(func() {
